@@ -38,7 +38,8 @@ class HashLM:
         self.calls = 0
 
     def score(self, prefix, c):
-        d = hashlib.sha256(("%d|%r|%r" % (self.seed, tuple(int(x) for x in prefix), c)).encode()).digest()
+        key = tuple(int(x) if isinstance(x, (int, np.integer)) else x for x in prefix)
+        d = hashlib.sha256(("%d|%r|%r" % (self.seed, key, c)).encode()).digest()
         return -6.0 * (int.from_bytes(d[:6], "big") / float(1 << 48))
 
     def initial_h(self, batch_size):
